@@ -275,7 +275,7 @@ class Wtp:
         "parser_stack",  # Parser stack
         "section",  # Section within page, for error messages
         "subsection",  # Subsection within page, for error messages
-        "suppress_special",  # XXX never set to True???
+        "suppress_special",  # True while nowiki text is added (no link trail)
         "data_folder",
         "NAMESPACE_DATA",
         "LOCALIZATION_DATA",
